@@ -467,7 +467,7 @@ func lbl07(b bool, s string) string {
 // longer random sequences on two contacts incl. malformed inputs, with reopen and replicas
 func TestVerif_C07_Random(t *testing.T) {
 	acct := vacct.Get("C07")
-	vacct.RapidCheck(t, vacct.N(30, 2500), func(rt *rapid.T) {
+	vacct.RapidCheck(t, vacct.N(30, 10000), func(rt *rapid.T) {
 		x := c07NewWorld(t)
 		defer func() { x.close() }()
 		x.newContact()
